@@ -21,11 +21,16 @@ Keys == {0, 1, 2}
 TwoQueues == TRUE
 SkipAfterDelete == TRUE
 
-VARIABLES l, reg, fired, ncallk, pq, pun, ov, subs, bad, notes
-tvars == <<l, reg, fired, ncallk, pq, pun, ov, subs, bad, notes>>
+VARIABLES l, reg, fired, ncallk, pq, pun, ov, subs, bad, notes,
+          nreg,     \* <<n, k>> -> number of subscriptions that have taken effect
+          flight    \* the publication held inside a Notify (NoFlight: none): p, m, deliveries so far, and
+                    \* who was registered / had left when it began
+tvars == <<l, reg, fired, ncallk, pq, pun, ov, subs, bad, notes, nreg, flight>>
 
+SplitPub == TRUE
 P == INSTANCE PubSub WITH qs <- <<>>, qu <- <<>>, calls <- <<>>, clock <- 0, out <- <<>>,
-                          res <- [op |-> "judge"], MaxCalls <- 0
+                          res <- [op |-> "judge"], MaxCalls <- 0, MaxPubs <- 0, nsub <- nreg,
+                          fly <- [p |-> -1], npub <- 0
 
 NK == Notifiers \X Keys
 CountIn(q, x) == Cardinality({i \in DOMAIN q : q[i] = x})
@@ -54,16 +59,34 @@ IsUnsubAp(e) == HasAp(e) /\ ApKind(e) # "sub"
 (***************************************************************************)
 (* verdict (pub events; evaluated on the history before the event)         *)
 (***************************************************************************)
-Dl(e) == {<<e.dl[i][1], e.dl[i][2]>> : i \in DOMAIN e.dl}
+\* A publication is judged when it ends, on all its deliveries D = <<n, k, m>>...:
+\*  reg0   the <<n, k>> registered, with n's error channel not fired, when it began
+\*  quiet0 the notifiers that had left (fired, every unsubscription applied) when it began and did not
+\*         subscribe anew while it was in flight
+\* For a publication that is one event (op "pub") the beginning and the end coincide.
+NoFlight == [p |-> -1]
+QuietNow == {n \in Notifiers : Quiet(fired, pun, n)}
+RegNow == {r \in reg : r[1] \notin fired}
+CountD(D, x) == Cardinality({i \in DOMAIN D : D[i][1] = x[1] /\ D[i][2] = x[2]})
 
-VerdictPub(e) ==
+VerdictPublication(p, m, D, reg0, quiet0, firedEnd, ovEnd, nregEnd) ==
      Clause("C40:every_later_message_delivered",
-            \A r \in reg : (r[1] \notin fired /\ r[2] \in {0, e.p}) => r \in Dl(e))
-  \o Clause("C40:in_publication_order", \A i \in DOMAIN e.dl : e.dl[i][3] = e.m)
+            \A r \in reg0 : (r[1] \notin firedEnd /\ r[2] \in {0, p}) => CountD(D, r) >= 1)
+  \o Clause("C40:no_duplicate_delivery", \A x \in NK : CountD(D, x) <= nregEnd[x])
+  \o Clause("C40:in_publication_order", \A i \in DOMAIN D : D[i][3] = m)
   \o Clause("C40:none_after_unsubscribed",
-            \A i \in DOMAIN e.dl : ~(Quiet(fired, pun, e.dl[i][1]) /\ e.dl[i][1] \notin ov))
+            \A i \in DOMAIN D : ~(D[i][1] \in quiet0 /\ D[i][1] \notin ovEnd))
   \o Clause("C40:none_after_unsubscribed[unsubscription_overtook_subscription]",
-            \A i \in DOMAIN e.dl : ~(Quiet(fired, pun, e.dl[i][1]) /\ e.dl[i][1] \in ov))
+            \A i \in DOMAIN D : ~(D[i][1] \in quiet0 /\ D[i][1] \in ovEnd))
+
+VerdictPub(e) == VerdictPublication(e.p, e.m, e.dl, RegNow, QuietNow, fired, ov, nreg)
+
+\* pubstart only records; its deliveries must carry its message
+VerdictPubStart(e) == Clause("C40:in_publication_order", \A i \in DOMAIN e.dl : e.dl[i][3] = e.m)
+
+VerdictPubEnd(e, firedEnd, ovEnd, nregEnd) ==
+  IF flight = NoFlight THEN <<>>
+  ELSE VerdictPublication(flight.p, flight.m, flight.dl \o e.dl, flight.reg0, flight.quiet0, firedEnd, ovEnd, nregEnd)
 
 VerdictOther(e) ==
   Clause("C40:in_publication_order", Len(e.dl) = 0)       \* nothing is delivered outside a Publish
@@ -82,6 +105,7 @@ Zero == [x \in NK |-> 0]
 TInit == /\ l = 1 /\ reg = {} /\ fired = {} /\ ncallk = Zero
          /\ pq = <<>> /\ pun = Zero /\ ov = {} /\ subs = [k \in Keys |-> <<>>]
          /\ bad = <<>> /\ notes = <<>>
+         /\ nreg = Zero /\ flight = NoFlight
 
 TStep ==
   /\ l <= NEvents
@@ -89,7 +113,7 @@ TStep ==
      IF e.op = "reset"
      THEN /\ l' = l + 1 /\ reg' = {} /\ fired' = {} /\ ncallk' = Zero
           /\ pq' = <<>> /\ pun' = Zero /\ ov' = {} /\ subs' = [k \in Keys |-> <<>>]
-          /\ bad' = bad /\ notes' = notes
+          /\ bad' = bad /\ notes' = notes /\ nreg' = Zero /\ flight' = NoFlight
      ELSE
        /\ l' = l + 1
        /\ fired' = EnqFired(e)
@@ -98,12 +122,22 @@ TStep ==
               pu1 == EnqPun(e)
               pq2 == IF IsSubAp(e) THEN DropFirst(pq1, ApNK(e)) ELSE pq1
               pu2 == IF IsUnsubAp(e) THEN [pu1 EXCEPT ![ApNK(e)] = IF @ > 0 THEN @ - 1 ELSE 0] ELSE pu1
-              cs  == IF e.op = "pub" THEN VerdictPub(e) ELSE VerdictOther(e)
+              nr2 == IF IsSubAp(e) THEN [nreg EXCEPT ![ApNK(e)] = @ + 1] ELSE nreg
+              ov2 == IF IsUnsubAp(e) /\ pu2[ApNK(e)] < CountIn(pq2, ApNK(e)) THEN ov \cup {ApNK(e)[1]} ELSE ov
+              cs  == CASE e.op = "pub" -> VerdictPub(e)
+                       [] e.op = "pubstart" -> VerdictPubStart(e)
+                       [] e.op = "pubend" -> VerdictPubEnd(e, fired', ov2, nr2)
+                       [] OTHER -> VerdictOther(e)
               ps  == PostSubs(e)
           IN /\ pq' = pq2
              /\ pun' = pu2
              /\ reg' = IF IsSubAp(e) THEN reg \cup {ApNK(e)} ELSE reg
-             /\ ov' = IF IsUnsubAp(e) /\ pu2[ApNK(e)] < CountIn(pq2, ApNK(e)) THEN ov \cup {ApNK(e)[1]} ELSE ov
+             /\ ov' = ov2
+             /\ nreg' = nr2
+             /\ flight' = CASE e.op = "pubstart" -> [p |-> e.p, m |-> e.m, dl |-> e.dl, reg0 |-> RegNow, quiet0 |-> QuietNow]
+                             [] e.op = "pubend" -> NoFlight
+                             [] e.op = "sub" /\ flight # NoFlight -> [flight EXCEPT !.quiet0 = @ \ {e.n}]
+                             [] OTHER -> flight
              /\ bad' = IF cs = <<>> THEN bad ELSE Append(bad, BadRec(l, e, cs))
              /\ subs' = ObsSubs(e)                                   \* resynchronise the mechanism only
              /\ notes' = IF ps # ObsSubs(e) /\ Len(notes) < 20
